@@ -43,7 +43,8 @@ fn fifteen(scanner: &mut Scanner) -> Option<i8> {
     match scanner.peek() {
         Some('1'..='9') => Some(match scanner.pop() {
             Some('1') => match scanner.peek() {
-                Some('1'..='5') => match scanner.pop() {
+                Some('0'..='5') => match scanner.pop() {
+                    Some('0') => 10,
                     Some('1') => 11,
                     Some('2') => 12,
                     Some('3') => 13,
